@@ -105,6 +105,45 @@ TOKEN_IMPLS = ["<pasfmt_core::lang::Token as pasfmt_core::lang::TokenData>::get_
                "<pasfmt_core::lang::RawToken as pasfmt_core::lang::TokenData>::get_content", "<pasfmt_core::lang::RawToken as pasfmt_core::lang::TokenData>::get_leading_whitespace"]
 
 
+def child_line_memo_key_is_complete(prog, rep, R):
+    """The memo of child-line solutions is sound only if its key holds every input the memoised computation starts from.  Each field
+    of the ChildLineInitialConditions key is the unmodified input itself (one origin: a captured variable or a parameter — not a
+    constant, not a value that is chosen per case), and the line length in the key is the very value the computation initialises
+    its running line length with.  A key that leaves the parent's line length out for some options returns a solution (with its
+    over-limit penalties and line lengths) that was computed for another column."""
+    b = prog.body(OLF + "InternalOptimisingLineFormatter::find_optimal_child_lines_solution")
+    if not rep.check(b is not None, R, "anchor:find_optimal_child_lines_solution", "find_optimal_child_lines_solution not found"):
+        return
+    fam = [b] + [x for x in prog.bodies.values() if x.npath.startswith(b.npath + "::")]
+    n = 0
+    for x in fam:
+        for bb, i, st in x.stmts():
+            if not (st["k"] == "assign" and st["rv"]["k"] == "aggregate" and norm(st["rv"].get("adt", "")).endswith("ChildLineInitialConditions")):
+                continue
+            n += 1
+            og = Origins(x)
+            f = dict(zip(st["rv"]["fields"], st["rv"]["ops"]))
+            bad = []
+            for name, op in f.items():
+                o = og.of_operand(op)
+                if len(o) != 1 or next(iter(o))[0] not in ("upvar", "param"):
+                    bad.append("%s = %s" % (name, sorted(str(y[:3]) for y in o)[:3]))
+            # the running line length of the computation starts from the key's line length
+            init = None
+            for li in range(len(x.locals)):
+                if x.local_name(li) == "last_line_length":
+                    ds = [d for d in x.defs.get(li, []) if d[0] == "assign" and d[3]["rv"]["k"] == "use"]
+                    firsts = [d for d in ds if not any(d[1] in L for L in x.loops().values())]
+                    if firsts:
+                        init = canon(x, firsts[0][3]["rv"]["op"])
+            if "last_line_length" in f and init is not None and canon(x, f["last_line_length"]) != init:
+                bad.append("key.last_line_length = %s but the computation starts from %s" % (canon(x, f["last_line_length"])[:40], init[:40]))
+            rep.check(not bad, R, "memo-key-holds-the-inputs:%s" % short(x.npath), "the key of the child-line memo does not hold the inputs of the memoised computation unchanged (%s): a solution computed for "
+                      "one column is returned for another, so the width decides the layout in ways the search did not weigh" % bad[:2], where="%s:%d" % (x.file, abs(st.get("line", 0))),
+                      instance={"fields": sorted(f), "bad": bad[:3]})
+    rep.floor(R, "constructions of the child-line memo key", n, 1)
+
+
 def width_measures_agree(prog, rep, R):
     """Every place that measures token text for the width comparison uses the same measure: the first fill of the per-token length
     cache, its refresh after the multi-line strings were rewritten, and the length of a multi-line token's last line.  If they
@@ -1732,6 +1771,7 @@ def rewrite_is_reported(prog, rep, R):
 
 
 def check_c11(prog, rep, tier, cfg):
+    child_line_memo_key_is_complete(prog, rep, "C11.h")
     # C11.g — the widths the wrapper compares with wrap_column are the widths that are emitted: every pass that can replace a token's
     # text is registered before the wrapping pass (shared with C03.c)
     import c03 as _c03
